@@ -129,6 +129,40 @@ def main():
         shutil.rmtree(root, ignore_errors=True)
     check("virtual-sleep", abs(seen.get("dt", 0) - 3600.0) < 1e-6 and wall < 1.0,
           f"(an hour of simulated sleep read back as {seen.get('dt')} s and cost {wall * 1000:.1f} ms of wall time)")
+    # 5b. SIGINT unwinds through clean-up code step by step; exit handlers run at process exit, never after a kill
+    K.install()
+    root = _root()
+    sim = K.Sim(S.Stream(seed=3), root)
+    sim.discipline = "serial"
+    K.activate(sim)
+    marks = {}
+    try:
+        def prog(tag):
+            def fn():
+                import atexit
+                atexit.register(lambda: marks.__setitem__(tag + ".atexit", True))
+                try:
+                    for i in range(5):
+                        with open(os.path.join(root, f"{tag}{i}"), "w") as f:
+                            f.write("x")
+                finally:
+                    with open(os.path.join(root, tag + ".cleanup"), "w") as f:
+                        f.write("done")
+            return fn
+        a = sim.spawn("interrupted", prog("a"))
+        a.interrupt_at = 4
+        b = sim.spawn("killed", prog("b"))
+        b.crash_at = 4
+        sim.run()
+        a_ok = isinstance(a.exc, KeyboardInterrupt) and os.path.exists(os.path.join(root, "a.cleanup")) \
+            and marks.get("a.atexit") and not os.path.exists(os.path.join(root, "a4"))
+        b_ok = b.state == K.CRASHED and not os.path.exists(os.path.join(root, "b.cleanup")) and not marks.get("b.atexit")
+    finally:
+        sim.reap()
+        K.deactivate()
+        shutil.rmtree(root, ignore_errors=True)
+    check("interrupt-vs-kill", bool(a_ok and b_ok),
+          "(SIGINT: clean-up code and exit handler ran, the remaining work did not; kill: neither ran)")
     # 6. a worker killed by a native crash: the batch survives, exactly that unit is skipped and counted
     import machines  # noqa: F401
     eng = R.get_engine("noise")
